@@ -41,16 +41,6 @@ def harnesses_for(prop, tier):
     return out
 
 
-# ---------------------------------------------------------------- C06 / C10
-harness("c06_seek_total", props=["C06", "C10"], panic_props=["C06"], timeout=300, mem=6,
-        what="Stream::seek from an arbitrary cache state: Ok/Err and new position equal the byte-vector model; refused seek leaves position, window, cursor, filled length unchanged; no panic",
-        bounds="all u64 total_len/window offset, all i64/u64 seek arguments, cursor<=filled<=1024",
-        functions=["<Stream<F> as Seek>::seek", "StreamBuffer::seek", "StreamBuffer::clear", "Stream::current_position"],
-        assumes=["cache representation invariant: cursor <= filled <= buffer len, window inside [0,total_len]; clean buffer (no flusher)"])
-
-PROPS["C06"] = dict(level="model_checking", smt=[], explanation="", bounds="", outside="")
-PROPS["C10"] = dict(level="model_checking", smt=[], explanation="", bounds="", outside="")
-
 ENGINES = [
     {"name": "kani-cbmc", "path": "/verif/vlib/kani.py + /verif/harness/*.rs",
      "serves_properties": [], "kind_free_text": "Kani 0.68 #[kani::proof] harnesses compiled together with the crate's real source (overlay copy of /repo's working tree), decided by CBMC 6.11 + cadical; counterexamples replayed natively with Kani concrete playback"},
@@ -59,3 +49,12 @@ ENGINES = [
 ]
 NOTES = "See DESIGN.md. Exit 2 = inconclusive (never reported as pass)."
 NOT_APPLICABLE = {("C%02d" % i): "check not built yet (work in progress; see DESIGN.md)" for i in range(1, 19)}
+
+
+def P(pid, **kw):
+    kw.setdefault("level", "model_checking")
+    kw.setdefault("smt", [])
+    PROPS[pid] = kw
+
+
+from . import table  # noqa: E402  (fills H and PROPS)
